@@ -54,6 +54,7 @@ namespace
         if (kind == "rterr") return "1 + \"a\"; gX = 5;";
         if (kind == "rterr_spawned") return "[] spawn {sleep 0.02; gX = 9;}; 1 + \"a\"; gX = 5;";
         if (kind == "endless") return "for \"_i\" from 0 to 1 step 0 do {gY = 1}; gX = 5;";
+        if (kind == "sleeper") return "[] spawn {sleep 10; gX = 6;}; 7";
         if (kind == "empty") return "";
         if (kind == "cfgok") return "class A { x = 1; };";
         if (kind == "cfgparsefail") return "class A { x = ; ";
